@@ -266,6 +266,122 @@ def parseVal (s : Str) : Option TVal :=
     else if isFloatTok s then some (.float s)
     else (parseInt s).map .int
 
+/-! ### durations: Go's `time.Duration.String` and `time.ParseDuration`, digit for digit
+
+`toml.Duration.String/MarshalTOML` is `time.Duration(d).String()`; the value read from a file, the
+environment or a flag goes through `pflag`'s `durationValue.Set` = `time.ParseDuration`.  Durations are
+int64 nanoseconds.  `ParseDuration` computes the fractional part in float64
+(`float64(f) * (float64(unit) / scale)`); the model computes `f * unit / 10^k` in naturals, which is the
+same number whenever the float product is exact - in particular for every text `String` produces. -/
+
+/-- `time.fmtFrac(buf, v, prec)`: the fraction digits of `v / 10^prec` without trailing zeros (with the
+decimal point, or nothing when the fraction is 0) and `v / 10^prec`. -/
+def fmtFrac : Nat → Nat → Bool → Str → Str × Nat
+  | 0, v, print, acc => (if print then '.' :: acc else acc, v)
+  | p + 1, v, print, acc =>
+    let digit := v % 10
+    let print' := print || decide (digit ≠ 0)
+    fmtFrac p (v / 10) print' (if print' then Nat.digitChar digit :: acc else acc)
+
+/-- `time.fmtInt`. -/
+def fmtInt (v : Nat) : Str := Nat.toDigits 10 v
+
+/-- `Duration.format` for the absolute value `u` (nanoseconds). -/
+def durFormat (u : Nat) : Str :=
+  if u < 1000000000 then
+    if u = 0 then ['0', 's']
+    else if u < 1000 then fmtInt u ++ ['n', 's']
+    else if u < 1000000 then fmtInt (fmtFrac 3 u false []).2 ++ ((fmtFrac 3 u false []).1 ++ ['µ', 's'])
+    else fmtInt (fmtFrac 6 u false []).2 ++ ((fmtFrac 6 u false []).1 ++ ['m', 's'])
+  else
+    let fr := (fmtFrac 9 u false []).1
+    let v := (fmtFrac 9 u false []).2          -- whole seconds
+    let secs := fmtInt (v % 60) ++ (fr ++ ['s'])
+    if v / 60 > 0 then
+      let ms := fmtInt (v / 60 % 60) ++ 'm' :: secs
+      if v / 60 / 60 > 0 then fmtInt (v / 60 / 60) ++ 'h' :: ms else ms
+    else secs
+
+/-- `time.Duration(d).String()`. -/
+def durString (d : Int) : Str :=
+  if d < 0 then '-' :: durFormat d.natAbs else durFormat d.natAbs
+
+/-- `unitMap` of package time. -/
+def unitOf (u : Str) : Option Nat :=
+  if u = ['n', 's'] then some 1
+  else if u = ['u', 's'] ∨ u = ['µ', 's'] ∨ u = ['μ', 's'] then some 1000
+  else if u = ['m', 's'] then some 1000000
+  else if u = ['s'] then some 1000000000
+  else if u = ['m'] then some 60000000000
+  else if u = ['h'] then some 3600000000000
+  else none
+
+def isNumChar (c : Char) : Bool := c.isDigit || c = '.'
+
+/-- `leadingFraction`: digits are accumulated until the value would overflow; returns the accumulated
+value and the number of accumulated digits (`scale = 10^k`). -/
+def fracAcc : Str → Nat → Nat → Bool → Nat × Nat
+  | [], x, k, _ => (x, k)
+  | c :: cs, x, k, ovf =>
+    if ovf then fracAcc cs x k true
+    else if x > (2 ^ 63 - 1) / 10 then fracAcc cs x k true
+    else
+      let y := x * 10 + (c.toNat - 48)
+      if y > 2 ^ 63 then fracAcc cs x k true else fracAcc cs y (k + 1) false
+
+/-- The optional `.digits` after the integer part: (fraction digits, rest). -/
+def splitFrac : Str → Str × Str
+  | '.' :: r => (r.takeWhile Char.isDigit, r.dropWhile Char.isDigit)
+  | r => ([], r)
+
+/-- `v*unit + uint64(float64(f) * (float64(unit) / scale))` with exact arithmetic. -/
+def groupValue (v unit : Nat) (fracDigits : Str) : Nat :=
+  v * unit + (if (fracAcc fracDigits 0 0 false).1 > 0
+    then (fracAcc fracDigits 0 0 false).1 * unit / 10 ^ (fracAcc fracDigits 0 0 false).2 else 0)
+
+/-- One `number unit` group of `ParseDuration`: its value in nanoseconds and the rest of the text. -/
+def parseGroup (s : Str) : Option (Nat × Str) :=
+  match s with
+  | [] => none
+  | c :: _ =>
+    if !(isNumChar c) then none
+    else if Nat.ofDigitChars 10 (s.takeWhile Char.isDigit) 0 > 2 ^ 63 then none   -- leadingInt overflow
+    else if s.takeWhile Char.isDigit = [] ∧ (splitFrac (s.dropWhile Char.isDigit)).1 = [] then none  -- no digits
+    else if (splitFrac (s.dropWhile Char.isDigit)).2.takeWhile (fun c => !isNumChar c) = [] then none -- missing unit
+    else match unitOf ((splitFrac (s.dropWhile Char.isDigit)).2.takeWhile (fun c => !isNumChar c)) with
+      | none => none
+      | some unit =>
+        if Nat.ofDigitChars 10 (s.takeWhile Char.isDigit) 0 > 2 ^ 63 / unit then none
+        else if groupValue (Nat.ofDigitChars 10 (s.takeWhile Char.isDigit) 0) unit
+            (splitFrac (s.dropWhile Char.isDigit)).1 > 2 ^ 63 then none
+        else some (groupValue (Nat.ofDigitChars 10 (s.takeWhile Char.isDigit) 0) unit
+            (splitFrac (s.dropWhile Char.isDigit)).1,
+          (splitFrac (s.dropWhile Char.isDigit)).2.dropWhile (fun c => !isNumChar c))
+
+def parseGroups : Nat → Str → Nat → Option Nat
+  | 0, _, _ => none
+  | fuel + 1, s, d =>
+    if s = [] then some d
+    else match parseGroup s with
+      | none => none
+      | some (v, rest) => if d + v > 2 ^ 63 then none else parseGroups fuel rest (d + v)
+
+/-- `ParseDuration` after the optional sign. -/
+def parseBody (neg : Bool) (body : Str) : Option Int :=
+  if body = ['0'] then some 0
+  else if body = [] then none
+  else match parseGroups (body.length + 1) body 0 with
+    | none => none
+    | some d =>
+      if neg then some (-(d : Int))
+      else if d > 2 ^ 63 - 1 then none else some (d : Int)
+
+/-- `time.ParseDuration`. -/
+def parseDur : Str → Option Int
+  | '-' :: r => parseBody true r
+  | '+' :: r => parseBody false r
+  | r => parseBody false r
+
 structure Entry where
   key : Str
   val : TVal
